@@ -222,6 +222,11 @@ func (nf *nilFlow) taintCellLoads(a *ssa.Alloc, v ssa.Value) {
 			}
 		case *ssa.MakeClosure:
 			fn := x.Fn.(*ssa.Function)
+			// the closure is created only after the variable was tested for nil (and
+			// it is not assigned afterwards): inside the closure it is not nil
+			if nf.cellGuardedAt(a, x) {
+				continue
+			}
 			for i, b := range x.Bindings {
 				if b == a && i < len(fn.FreeVars) {
 					fv := fn.FreeVars[i]
@@ -236,6 +241,48 @@ func (nf *nilFlow) taintCellLoads(a *ssa.Alloc, v ssa.Value) {
 			}
 		}
 	}
+}
+
+// cellGuardedAt: a nil test of a load of the local variable a dominates `at`
+// on its non-nil edge, and every store to a dominates that test (the variable
+// is not reassigned between the test and `at`, nor later).
+func (nf *nilFlow) cellGuardedAt(a *ssa.Alloc, at ssa.Instruction) bool {
+	fn := at.Parent()
+	if a.Parent() != fn || a.Referrers() == nil {
+		return false
+	}
+	for _, r := range *a.Referrers() {
+		ld, ok := r.(*ssa.UnOp)
+		if !ok || ld.Op != token.MUL {
+			continue
+		}
+		okG, iff := nf.p.Guarded(at, ld, "nil")
+		if !okG || iff == nil {
+			continue
+		}
+		storesBefore := true
+		for _, st := range core.StoresTo(a) {
+			if !core.Dominates(st, iff) {
+				storesBefore = false
+			}
+		}
+		// stores from inside closures (captured by reference) would be invisible here
+		captured := 0
+		for _, rr := range *a.Referrers() {
+			if mc, ok := rr.(*ssa.MakeClosure); ok {
+				cf := mc.Fn.(*ssa.Function)
+				for i, b := range mc.Bindings {
+					if b == ssa.Value(a) && i < len(cf.FreeVars) && len(core.StoresTo(cf.FreeVars[i])) > 0 {
+						captured++
+					}
+				}
+			}
+		}
+		if storesBefore && captured == 0 {
+			return true
+		}
+	}
+	return false
 }
 
 func (nf *nilFlow) pathTo(v ssa.Value) []string {
